@@ -57,7 +57,11 @@ RULE = ('exhaustive small scope: every map of length <= N whose valid entries ar
         'bytes) with value buffers between character count and byte count; entries of 255..512 bytes. '
         'SCALED: chunk sizes 16..300 (powers of two and neighbours, and random) with near-1:1 maps of 1-3 chunks carrying '
         'planted events (a repeat compensated by a skipped source row, an unmatched row in place of / inserted before a '
-        'row, skips around the chunk size, blocks, swapped pairs) for both streams, the helpers and histories. '
+        'row, skips around the chunk size, blocks, swapped pairs) for both streams, the helpers and histories; a few '
+        'chunk sizes around 1024 (thorough: 2048, 4096). '
+        'CALL FORMS: f(src, map, dst[, invalid]) with chunksize / value_factor left to the function defaults, as '
+        'DataFrame.merge calls them — defaults patched to every small size (all maps of length <= 3) and the real '
+        'defaults (2^20 rows; indexed 2^20 x 8 in the thorough tier only). '
         'CHANGE-DIRECTED: every small integer literal that is new in the tree under test (harness/hot.py) is planted '
         'as chunk size, map length, run length and entry byte width (K-1, K, K+1, 2K, 3K, ...). '
         'Non-trivial = the case reaches at least one planted feature other than its marker/kind tags.')
@@ -215,6 +219,27 @@ def _run_hist(case):
     return [outs, [_ints(mp.data[:]), fin_n, fin_i, fin_v]]
 
 
+def _call(f, fields3, inv, sizes, dflt):
+    """the call forms of the streamed mappings. DataFrame.merge calls them as f(src, map, dst, invalid): chunksize and
+    value_factor come from the function's defaults. dflt='patched': the defaults are set to the case's sizes for the
+    duration of the call and the size arguments are omitted (the hard-wired size becomes a parameter, the model takes the
+    same one); dflt='real': nothing is patched (the case records DEFAULT_CHUNKSIZE and value_factor 8); dflt='vf':
+    only value_factor is left to its (patched) default. The invalid argument is omitted as well when it is -1."""
+    if not dflt:
+        return f(*fields3, inv, *sizes)
+    saved = f.__defaults__
+    try:
+        if dflt == 'patched':
+            f.__defaults__ = (saved[0],) + tuple(sizes)
+            return f(*fields3) if inv == -1 else f(*fields3, inv)
+        if dflt == 'vf':
+            f.__defaults__ = (saved[0], saved[1], sizes[1])
+            return f(*fields3, inv, sizes[0])
+        return f(*fields3) if inv == -1 else f(*fields3, inv)
+    finally:
+        f.__defaults__ = saved
+
+
 def run(case):
     np, ops = _np, _ops
     op = case['op']
@@ -227,14 +252,14 @@ def run(case):
         src = _num_field(df, 'src', kind, _data_array(kind, case['data']))
         mp = _num_field(df, 'map', _map_dtype(case), _map_array(case))
         dst = _num_field(df, 'dst', kind, None)
-        ops.ordered_map_valid_stream(src, mp, dst, inv, case['cs'])
+        _call(ops.ordered_map_valid_stream, (src, mp, dst), inv, (case['cs'],), case.get('dflt'))
         return _canon_elems(kind, dst.data[:])
     if op == 'istream':
         df = _h5_df() if case.get('store') == 'h5' else None
         src = _idx_field(df, 'src', case['strs'])
         mp = _num_field(df, 'map', _map_dtype(case), _map_array(case))
         dst = _idx_field(df, 'dst', None)
-        ops.ordered_map_valid_indexed_stream(src, mp, dst, inv, case['cs'], case['vf'])
+        _call(ops.ordered_map_valid_indexed_stream, (src, mp, dst), inv, (case['cs'], case['vf']), case.get('dflt'))
         return [[int(x) for x in dst.indices[:]], [int(x) for x in dst.values[:]]]
     m = _map_array(case)
     flt = m != inv
@@ -429,6 +454,8 @@ def features(case, model):
         f.append('kind:' + case['kind'])
     if case.get('store') == 'h5':
         f.append('hdf5-backed')
+    if case.get('dflt'):
+        f.append('size arguments omitted (defaults: %s)' % case['dflt'])
     if isinstance(model, str):
         f.append('model:' + model.split(':')[0] + (':' + model.split(':')[1] if model.startswith('EXC') else ''))
     if not m:
@@ -766,6 +793,7 @@ def _gen(tier, rng):
     if os.environ.get('C04_BASE'):      # development aid: the generators as they were before the strengthening round
         return
     yield from _gen_histories(big, rng)
+    yield from _gen_defaults(big, rng)
     yield from _gen_extremes(big, rng)
     yield from _gen_text(big, rng)
     yield from _gen_scaled(big, rng)
@@ -851,6 +879,35 @@ def _gen_histories(big, rng):
         data = [rng.randint(0, 1) for _ in range(Ls)] if kind == 'bool' else [rng.randint(0, 100) for _ in range(Ls)]
         yield {'op': 'hist', 'kind': kind, 'data': data, 'strs': strs, 'map': m, 'inv': rng.randint(0, 2),
                'steps': steps, 'store': 'h5' if k % 10 == 0 else 'mem'}
+
+
+# ---- the call form production uses: f(src, map, dst, invalid) with chunksize / value_factor left to their defaults ------
+DEFAULT_CS = 1 << 20
+
+
+def _gen_defaults(big, rng):
+    rot = 0
+    for n in range(0, 4):
+        for m in all_maps(n, 3):
+            for cs in range(1, n + 2):
+                rot += 1
+                inv = rot % 3
+                kind = (['int32'] * 2 + NUM_KINDS + ['S3'])[rot % 9]
+                yield {'op': 'stream', 'kind': kind, 'data': _data(kind, 3), 'map': m, 'inv': inv, 'cs': cs, 'dflt': 'patched'}
+                vf = 1 + rot % 3
+                p = str_patterns(3, cs * vf)
+                yield {'op': 'istream', 'strs': _strs(p[rot % len(p)]), 'map': m, 'inv': (inv + 1) % 3, 'cs': cs, 'vf': vf,
+                       'dflt': 'patched' if rot % 2 else 'vf'}
+    for k in range(24 if big else 8):          # the real defaults (a 2^20-row buffer: the model takes the same size)
+        Ls = rng.randint(1, 12)
+        m = [None if rng.random() < 0.3 else rng.randrange(Ls) for _ in range(rng.randint(0, 16))]
+        kind = (['int32'] + NUM_KINDS + ['S3'])[k % 8]
+        yield {'op': 'stream', 'kind': kind, 'data': _vals(kind, Ls), 'map': m, 'inv': k % 3, 'cs': DEFAULT_CS, 'dflt': 'real',
+               'store': 'h5' if k % 4 == 3 else 'mem'}
+    if big:
+        for k in range(2):                      # indexed: 2^20 offsets and 2^23 bytes of buffer (slow in the model)
+            yield {'op': 'istream', 'strs': ['a', '', 'ccc', 'dd'], 'map': [[0, None, 3, 2, 2], [None, 1, 0]][k], 'inv': 1 + k,
+                   'cs': DEFAULT_CS, 'vf': 8, 'dflt': 'real'}
 
 
 # ---- source values at the extremes of their type ----------------------------------------------------------
@@ -947,10 +1004,12 @@ def near_identity_map(rng, n, cs, unordered_ok=True):
         i = rng.choice(spots) if rng.random() < 0.4 else rng.randrange(max(1, n))
         if not (0 <= i < len(m)) or not m:
             continue
-        kind = rng.choice(['rep-skip', 'rep-skip', 'inv-inplace', 'inv-inplace', 'inv-insert', 'rep-insert', 'skip',
-                           'block', 'swap', 'inv-run'])
+        kind = rng.choice(['rep-skip', 'rep-skip', 'fwd-rep', 'inv-inplace', 'inv-inplace', 'inv-insert', 'rep-insert',
+                           'skip', 'block', 'swap', 'inv-run'])
         if kind == 'rep-skip' and i > 0 and m[i - 1] is not None:
             m[i] = m[i - 1]
+        elif kind == 'fwd-rep' and i + 1 < len(m) and m[i + 1] is not None:
+            m[i] = m[i + 1]                  # with a rep-skip elsewhere the SUM of the entries is that of the 1:1 run too
         elif kind == 'inv-inplace':
             m[i] = None
         elif kind == 'inv-insert':
@@ -986,9 +1045,13 @@ def _scaled_case(rng, cs, n, sel, hot_k=None):
         return {'op': 'stream', 'kind': kind, 'data': _vals(kind, Ls), 'map': m, 'inv': inv, 'cs': cs, 'store': store}
     if sel == 'istream':
         vf = rng.choice([1, 1, 2, 3])
+        if cs >= 1000:
+            vf = 1
         b = cs * vf
         w = [0, 1, 1, 2, 3] + ([hot_k - 1, hot_k, hot_k + 1] if hot_k and hot_k + 1 <= b and hot_k <= 300 else [])
         lens = [rng.choice(w) for _ in range(Ls)]
+        if rng.random() < 0.25:
+            lens = [rng.choice([1, 2, 3])] * Ls          # all entries equally long (a fixed-width column in disguise)
         if rng.random() < 0.3:
             lens[rng.randrange(Ls)] = b
         return {'op': 'istream', 'strs': _strs(lens), 'map': m, 'inv': inv, 'cs': cs, 'vf': vf, 'store': store}
@@ -1029,6 +1092,13 @@ def _gen_scaled(big, rng):
             if sel in ('istream', 'hist') and cs > 130:
                 n = min(n, cs + 1)
             yield _scaled_case(rng, cs, n, sel)
+    # a few chunk sizes in the thousands (the model is quadratic there: seconds per case)
+    for cs in ([1000, 1023, 1024, 1025] + ([2048, 4095, 4096, 4097] if big else [])):
+        for sel in ('stream', 'stream', 'istream', 'helper'):
+            for n in ((cs - 1, cs, cs + 1, 2 * cs) if big or cs == 1024 else (cs + 1,)):
+                if cs > 1025 and sel == 'istream' and n > cs + 1:
+                    continue
+                yield _scaled_case(rng, cs, n, sel)
     for K in hot.hot_sizes():
         small = K <= 300
         for sel, cnt in [('stream', 1400), ('istream', 500), ('helper', 400), ('hist', 300)]:
